@@ -291,6 +291,13 @@ def OPS(c):
         await c.step('pipe.transfer(v, limit)', pipe.transfer(v, throughput=E.const(Fraction(1))))
         await c.step('pipe.transfer(0)', pipe.transfer(0))
 
+    @op('infinite pipe')
+    async def _(c):
+        pipe = Pipe(throughput=float('inf'))
+        v = E.real('v', 0, 5)
+        await c.step('Pipe(inf).transfer(v)', pipe.transfer(v))
+        await c.step('Pipe(inf).transfer(0)', pipe.transfer(0))
+
     @op('unbounded pipe')
     async def _(c):
         pipe = UnboundedPipe()
